@@ -184,7 +184,7 @@ func oracleC05(r *Result) ([]Violation, bool) {
 		live := cur != nil && !cur.Del
 		isRefresh := false
 		if live && cur.By == op.Inst {
-			if cp, cok := parsePayload(cur.Val); cok && cp.ID == op.Inst && op.Label == "hb" {
+			if cp, cok := parsePayload(cur.Val); cok && cp.ID == r.Scn.cfgID(op.Inst) && op.Label == "hb" {
 				isRefresh = true
 				if np.ID != cp.ID || np.Token != cp.Token {
 					s.add(op.TApply, "refresh-changes-token", "%s: refresh %s republished %s/%s over %s/%s", op.Inst, op.ID, np.ID, np.Token, cp.ID, cp.Token)
@@ -238,14 +238,14 @@ func oracleC05(r *Result) ([]Violation, bool) {
 					continue
 				}
 				// the token handed to the (latest) promotion callback is the token in the record
-				if rec := recOf(r, &e, sn.I); rec != nil && rec.ID == sn.I && rec.By == sn.I && !sn.Fine && !sn.Blocked && !sn.InStop &&
+				if rec := recOf(r, &e, sn.I); rec != nil && rec.ID == r.Scn.cfgID(sn.I) && rec.By == sn.I && !sn.Fine && !sn.Blocked && !sn.InStop &&
 					sn.NProm-sn.NDem == 1 && lastProm[sn.I] != "" && lastProm[sn.I] != rec.Token {
 					s.add(e.T, "promote-token-differs-from-record", "%s leads, its live record rev %d carries token %s, but its latest OnPromote was handed %s", sn.I, rec.Rev, rec.Token, lastProm[sn.I])
 				}
 				if !sn.Blocked && sn.SIsLead && sn.SToken != sn.Token {
 					s.add(e.T, "status-token-differs", "%s: Token()=%s Status().Token=%s", sn.I, sn.Token, sn.SToken)
 				}
-				if rec := recOf(r, &e, sn.I); rec != nil && rec.ID == sn.I && rec.By == sn.I && rec.Token != sn.Token {
+				if rec := recOf(r, &e, sn.I); rec != nil && rec.ID == r.Scn.cfgID(sn.I) && rec.By == sn.I && rec.Token != sn.Token {
 					if sn.Fine && acqRev[sn.I][rec.Token] > acqRev[sn.I][sn.Token] && acqRev[sn.I][sn.Token] > 0 {
 						// inside a fine window: the live record is a *newer* acquisition write of
 						// the same instance (a second round won after the first record had been
